@@ -309,6 +309,9 @@ def replay(ctx, case):
     check(ctx, case)
 
 
+FUZZ_IMPORTS = ['mwlib.core.metabook', 'mwlib.utils.myjson']
+
+
 def run_shard(ctx):
     @ctx.settings(ctx.n(8000, 240000))
     @given(cases())
@@ -334,3 +337,4 @@ def run_shard(ctx):
         check(ctx, case)
 
     ctx.run_given(t)
+    ctx.fuzz_campaign("", (0, 320000))
